@@ -193,6 +193,11 @@ def _carried_state(ctx):
                 deps = set()
                 for part in strip(v):
                     deps |= {y[1] for y in ir.walk(part) if y[0] == "param" and y[1] in varying[g]}
+                # a write that happens only when something in this call FAILED (except handler) depends on the call's arguments through the
+                # failure itself: whether a later call sees the flag depends on which earlier fits raised
+                in_handler = any(c_[0] == "exc" for c_, _pol in w[0])
+                if in_handler:
+                    deps |= set(varying[g])
                 loose = sorted(deps - keys)
                 ok = not loose
                 ctx.ob("C13.R7.carried", f"{cn}|{g.qualname}|self.{a} kept from one call to the next", ok, g.where(),
